@@ -43,10 +43,28 @@ impl Scripted {
     }
 }
 
+thread_local! {
+    /// dead-transport mode: number of bytes the transport still accepts; afterwards every write returns Ok(0)
+    static DEAD_AFTER: std::cell::Cell<Option<usize>> = const { std::cell::Cell::new(None) };
+    static ZERO_WRITES: std::cell::Cell<u32> = const { std::cell::Cell::new(0) };
+}
+
 impl AsyncWrite for Scripted {
     fn poll_write(mut self: Pin<&mut Self>, cx: &mut Context<'_>, data: &[u8]) -> Poll<std::io::Result<usize>> {
         if data.is_empty() {
             return Poll::Ready(Ok(0));
+        }
+        if let Some(left) = DEAD_AFTER.with(|d| d.get()) {
+            if left == 0 {
+                let z = ZERO_WRITES.with(|z| { z.set(z.get() + 1); z.get() });
+                if z > 10_000 {
+                    panic!("the stream keeps writing to a transport that accepts nothing (10000 consecutive writes returned 0)");
+                }
+                return Poll::Ready(Ok(0));
+            }
+            let n = data.len().min(left);
+            DEAD_AFTER.with(|d| d.set(Some(left - n)));
+            return Pin::new(&mut self.end).poll_write(cx, &data[..n]);
         }
         let l = data.len();
         let c = if self.pended_w {
@@ -647,6 +665,101 @@ fn tamper(ops: &[Op], st: &mut (u64, u64, Option<(String, serde_json::Value)>)) 
     }
 }
 
+
+/// "... or fails": the transport stops accepting bytes (every write returns 0) after `k` more bytes of
+/// ciphertext, for k around every header / body / tag boundary of the first two frames. The writer must
+/// get an error (never loop, never report a flush that did not happen), the reader a prefix.
+fn dead_transport(st: &mut (u64, u64, Option<(String, serde_json::Value)>)) {
+    let seqs: Vec<Vec<Op>> = vec![vec![Op::Write(100), Op::Flush, Op::Write(50), Op::Flush], vec![Op::Write(P + 1), Op::Flush], vec![Op::Write(100), Op::Write(2 * P + 5), Op::Shutdown]];
+    let ks: Vec<usize> = vec![0, 1, 2, 3, 17, 18, 19, 117, 118, 119, P + 17, P + 18, P + 19, 2 * P + 40];
+    for ops in &seqs {
+        for &k in &ks {
+            st.0 += 1;
+            let ch = core::Chooser::new(vec![], None);
+            let on = std::rc::Rc::new(std::cell::Cell::new(false));
+            let Ok(mut s) = handshake(&ch, &on, true) else { continue };
+            DEAD_AFTER.with(|d| d.set(Some(k)));
+            ZERO_WRITES.with(|z| z.set(0));
+            let mut accepted: Vec<u8> = vec![];
+            let mut flushed_upto = 0usize;
+            let mut failed_at: Option<String> = None;
+            let res = core::catch(|| {
+                'ops: for op in ops {
+                    match op {
+                        Op::Write(n) => {
+                            let data: Vec<u8> = (0..*n).map(|i| pattern(accepted.len() + i)).collect();
+                            let mut off = 0;
+                            while off < data.len() {
+                                match poll_until(|cx| Pin::new(&mut s.writer).poll_write(cx, &data[off..]), 100_000) {
+                                    Some(Ok(j)) if j > 0 => {
+                                        accepted.extend_from_slice(&data[off..off + j]);
+                                        off += j;
+                                    }
+                                    Some(Ok(_)) => return Some(format!("poll_write returned 0 for a non-empty buffer during {}", op_name(op))),
+                                    Some(Err(_)) => {
+                                        failed_at = Some(op_name(op));
+                                        break 'ops;
+                                    }
+                                    None => return Some(format!("poll_write stayed Pending forever on a dead transport during {}", op_name(op))),
+                                }
+                            }
+                        }
+                        Op::Flush | Op::Shutdown => {
+                            let r = if *op == Op::Flush { poll_until(|cx| Pin::new(&mut s.writer).poll_flush(cx), 100_000) } else { poll_until(|cx| Pin::new(&mut s.writer).poll_shutdown(cx), 100_000) };
+                            match r {
+                                Some(Ok(())) => flushed_upto = accepted.len(),
+                                Some(Err(_)) => {
+                                    failed_at = Some(op_name(op));
+                                    break 'ops;
+                                }
+                                None => return Some(format!("{} stayed Pending forever on a dead transport", op_name(op))),
+                            }
+                        }
+                    }
+                }
+                None
+            });
+            DEAD_AFTER.with(|d| d.set(None));
+            let mut violation = match res {
+                Ok(v) => v,
+                Err(p) => Some(format!("writer panicked / looped: {}", p.lines().next().unwrap_or(""))),
+            };
+            if violation.is_none() {
+                // reader: everything the transport got
+                s.w2r.lock().unwrap().closed = true;
+                let mut got = vec![];
+                let mut buf = vec![0u8; 70_000];
+                let w = Waker::noop();
+                let mut cx = Context::from_waker(&w);
+                let r = core::catch(|| {
+                    for _ in 0..100_000 {
+                        let mut rb = ReadBuf::new(&mut buf);
+                        match Pin::new(&mut s.reader).poll_read(&mut cx, &mut rb) {
+                            Poll::Ready(Ok(())) if !rb.filled().is_empty() => got.extend_from_slice(rb.filled()),
+                            _ => break,
+                        }
+                    }
+                });
+                if let Err(p) = r {
+                    violation = Some(format!("reader panicked: {}", p.lines().next().unwrap_or("")));
+                } else if got.len() > accepted.len() || got[..] != accepted[..got.len()] {
+                    violation = Some(format!("the reader obtained {} bytes that are not a prefix of the {} bytes the writer accepted", got.len(), accepted.len()));
+                } else if got.len() < flushed_upto {
+                    violation = Some(format!("a flush / shutdown reported success for {flushed_upto} bytes but only {} reached the reader (the transport had stopped accepting bytes)", got.len()));
+                }
+            }
+            st.1 += failed_at.is_some() as u64;
+            if let Some(v) = violation {
+                st.2.get_or_insert((
+                    format!("[dead_transport] the transport accepts {k} more bytes and then nothing (writes return 0); ops [{}]: {v}", ops.iter().map(op_name).collect::<Vec<_>>().join(", ")),
+                    json!({"harness":"c13-dead","ops": ops.iter().map(op_name).collect::<Vec<_>>(), "k": k}),
+                ));
+                return;
+            }
+        }
+    }
+}
+
 pub fn run(args: &Args) -> Report {
     let mut rep = Report::new("C13", "model_checking");
     let sizes = [1usize, 100, P - 1, P, P + 1, 2 * P + 5];
@@ -666,6 +779,14 @@ pub fn run(args: &Args) -> Report {
         let ops = parse_ops(&rp["config"]["ops"]);
         let rbuf = rp["config"]["rbuf"].as_u64().unwrap_or(1000) as usize;
         let devs: core::Deviations = rp["deviations"].as_array().map(|a| a.iter().map(|p| (p[0].as_u64().unwrap() as u32, p[1].as_u64().unwrap() as u32)).collect()).unwrap_or_default();
+        if rp["harness"] == "c13-dead" {
+            let mut st = (0, 0, None);
+            dead_transport(&mut st);
+            if let Some((w, r)) = st.2 {
+                rep.violations.push(Violation { key: "dead_transport".into(), what: w, replay: r });
+            }
+            return rep;
+        }
         if rp["harness"] == "c13-tamper" {
             let mut st = (0, 0, None);
             tamper(&parse_ops(&rp["ops"]), &mut st);
@@ -762,6 +883,16 @@ pub fn run(args: &Args) -> Report {
             rep.machinery_errors.push("vacuous tampering: no edit made the reader fail".into());
         }
     }
+    // the transport dies (writes return 0) at every listed position
+    let mut dst: (u64, u64, Option<(String, serde_json::Value)>) = (0, 0, None);
+    if rep.violations.is_empty() {
+        dead_transport(&mut dst);
+        if let Some((w, r)) = dst.2.clone() {
+            rep.violations.push(Violation { key: "dead_transport".into(), what: w, replay: r });
+        } else if dst.1 == 0 {
+            rep.machinery_errors.push("vacuous: the writer never noticed a dead transport".into());
+        }
+    }
     if witnesses_abandoned == 0 && rep.violations.is_empty() && !capped {
         rep.machinery_errors.push("vacuous: no execution gave up a write after Pending".into());
     }
@@ -772,7 +903,8 @@ pub fn run(args: &Args) -> Report {
         "states": states,
         "transitions": total_points,
         "traces_validated_against_impl": total_execs,
-        "evaluations": total_execs + tst.0,
+        "evaluations": total_execs + tst.0 + dst.0,
+        "dead_transport_cases": dst.0, "dead_transport_cases_in_which_the_writer_failed": dst.1,
         "distinct_nontrivial": distinct,
         "samples": [
             {"ops": ["write(131043)"], "reader_buffer": 1000, "schedule": "all transport answers default except: Pending at the poll_write that fills the payload buffer"},
